@@ -173,6 +173,11 @@ def level0_case(draw, tier='quick'):
         deck['imp_cards'] = {'n': {'values': [float(v) for v in imps]}}
     deck['materials'] = [{'id': 1, 'entries': [('13027', '1.0')]},
                          {'id': 2, 'entries': [('1001', '2'), ('8016', '1')]}]
+    extra_cards = draw(gen.unrelated_data_cards())
+    if extra_cards:
+        # MODE, SDEF, tallies, MT, KCODE, ...: cards the conversion ignores
+        deck['extra_data'] = extra_cards
+        labels.append('unrelated-data-cards')
     style = {}
     if draw(st.integers(0, 3)) == 0:
         style['redundant'] = True
